@@ -1,6 +1,7 @@
 package props
 
 import (
+	"bytes"
 	"context"
 	"fmt"
 	"strings"
@@ -249,6 +250,13 @@ func runC10(c *h.Ctx) {
 		desc := svc.LookupMethodByName("M").Input()
 		m := PGenMsg(cs.R, pc.Root, PValCfg{MaxElems: 4, MaxDepth: 3}, 0)
 		b := PMarshal(m)
+		if cs.R.Chance(40) {
+			// field groups in the arbitrary order protobuf-go's default marshalling writes them
+			if sb := pShuffleWire(cs.R, b, pc.Root, 0); !bytes.Equal(sb, b) {
+				b = sb
+				cs.Cover("initial_wire_order_non_ascending")
+			}
+		}
 		cs.Info("initial", fmt.Sprint(m))
 		cs.Info("initial-bytes", hexs(b))
 		root := pg.NewRootValue(desc, append([]byte{}, b...))
@@ -414,6 +422,12 @@ func runC10(c *h.Ctx) {
 		desc := svc.LookupMethodByName("M").Input()
 		m := PGenMsg(cs.R, pc.Root, PValCfg{MaxElems: 4, MaxDepth: 2}, 0)
 		b := PMarshal(m)
+		if cs.R.Bool() {
+			if sb := pShuffleWire(cs.R, b, pc.Root, 0); !bytes.Equal(sb, b) {
+				b = sb
+				cs.Cover("setmany_wire_order_non_ascending")
+			}
+		}
 		cs.Info("initial", fmt.Sprint(m))
 		cs.Info("initial-bytes", hexs(b))
 		// singular scalar fields of the root, in random order
